@@ -106,10 +106,20 @@ class PStack:
             return (5, 2)
         if name == "dtype":
             return "DTYPE"
+        if name in ("round", "max", "min"):
+            # values derived from the coordinates (a key / a scale): the
+            # layout of the blocks is what this run tracks
+            return PyFunc(lambda a, k, n: self if name == "round"
+                          else 1)
         raise Unsupported("stacked points." + name)
 
     def skv_getitem(self, ix):
         return self
+
+    def skv_binop(self, op, other, reflected):
+        if isinstance(op, (ast.Div, ast.Mult)):
+            return self
+        raise Unsupported("arithmetic on stacked points")
 
 
 class TStack:
@@ -133,6 +143,9 @@ def _joins(model, rep):
                 return TStack(seq)
             return NotImplemented
         if name == "numpy.ascontiguousarray":
+            return args[0]
+        if name in ("numpy.abs", "numpy.absolute") and isinstance(
+                args[0], PStack):
             return args[0]
         if name == "numpy.cumsum":
             out, tot = [], Poly()
@@ -238,6 +251,73 @@ def _joins(model, rep):
        "mesh by the number of points of the first", fn.lineno)
     # ---- extrusion: layers (symbolic run with three levels)
     _extrusion(model, rep)
+    _join_coordinates(model, rep)
+
+
+def _join_coordinates(model, rep):
+    """Mesh.__add__ identifies vertices the two meshes have in common.  (a)
+    The joined mesh consists of the cells of its operands: the coordinates
+    handed to the result are the operands' coordinates, not rounded copies
+    (rounding may serve as the *key* for finding coincident vertices).  (b)
+    The key is scale-free: rounding coordinates to a fixed number of
+    decimals is an absolute tolerance - a mesh given in metres with
+    micrometre cells is distorted or collapses, the same mesh in micrometres
+    is fine."""
+    R3 = "C18-R3"
+    mcls = model.cls(MESH, "Mesh")
+    fn = mcls.methods["__add__"]
+    defs = {}
+    for n in walk_no_nested(fn.node):
+        if isinstance(n, ast.Assign) and len(n.targets) == 1 and isinstance(
+                n.targets[0], ast.Name):
+            defs[n.targets[0].id] = n.value
+
+    def expand(e, depth=0):
+        """source of e with local names replaced by their definitions"""
+        if depth > 4:
+            return src(e)
+        out = src(e)
+        for x in ast.walk(e):
+            if isinstance(x, ast.Name) and x.id in defs:
+                out += " <- " + expand(defs[x.id], depth + 1)
+        return out
+    calls = [n for n in walk_no_nested(fn.node) if isinstance(n, ast.Call)
+             and src(n.func).endswith("_remove_duplicate_nodes")]
+    if len(calls) != 1 or not calls[0].args:
+        raise AnalysisError("Mesh.__add__: duplicate removal not found")
+    coords = expand(calls[0].args[0])
+    _v(rep, R3, ".round(" not in coords and "np.round" not in coords
+       and "np.around" not in coords, "Mesh.__add__:coordinates",
+       "the result is built from the operands' coordinates as they are",
+       "Mesh.__add__",
+       f"the coordinates of the joined mesh are '{coords[:90]}': rounded "
+       f"copies - every vertex moves by up to half a unit of the last kept "
+       f"decimal, i.e. by 3 % of the mesh width for a 1 micrometre mesh "
+       f"given in metres", fn.lineno)
+    rounds = [n for n in walk_no_nested(fn.node) if isinstance(n, ast.Call)
+              and isinstance(n.func, ast.Attribute)
+              and n.func.attr in ("round", "around")]
+    bad = []
+    for r in rounds:
+        recv = r.func.value if src(r.func.value) not in ("np", "numpy") \
+            else (r.args[0] if r.args else None)
+        text = expand(recv) if recv is not None else ""
+        scaled = any(isinstance(x, ast.BinOp) and isinstance(x.op, ast.Div)
+                     for x in ([recv] if recv is None else ast.walk(recv))) \
+            or any(isinstance(x, ast.BinOp) and isinstance(x.op, ast.Div)
+                   for nm in [y.id for y in ast.walk(recv)
+                              if isinstance(y, ast.Name) and y.id in defs]
+                   for x in ast.walk(defs[nm]))
+        if not scaled:
+            bad.append((r, text))
+    _v(rep, R3, not bad, "Mesh.__add__:scale-free-key",
+       f"{len(rounds)} rounding(s), each of coordinates divided by a scale "
+       f"of the data" if rounds else "no rounding", "Mesh.__add__",
+       f"'{src(bad[0][0])[:60]}' rounds coordinates to a fixed number of "
+       f"decimals: an absolute tolerance - vertices closer than that are "
+       f"merged whatever the size of the mesh (a 10 nm mesh in SI units "
+       f"collapses: 60 of 64 cells get zero area)" if bad else "",
+       bad[0][0].lineno if bad else fn.lineno)
 
 
 def _extrusion(model, rep):
@@ -839,6 +919,12 @@ def run(model: Model, rep, tier: str) -> None:
 _QU = "skfem/mesh/mesh_quad_1.py"
 _HE = "skfem/mesh/mesh_hex_1.py"
 MUTANTS = [
+    ("joined mesh built from the rounded key",
+     (FM, "        return cls(*self._remove_duplicate_nodes(p, t, key=key))",
+      "        return cls(*self._remove_duplicate_nodes(key, t))"), "C18-R3"),
+    ("common vertices found by rounding the raw coordinates",
+     (FM, "        key = (p / scale).round(decimals=8)",
+      "        key = p.round(decimals=8)"), "C18-R3"),
     ("periodic quadrilateral meshes inherit the triangle split again",
      ("skfem/mesh/mesh_dg.py", "    def to_meshtri(self, *args, **kwargs):\n        raise NotImplementedError\n\n", ""), "C18-R2"),
     ("extrusion walks the levels in stored order",
